@@ -39,7 +39,7 @@ def run(chk):
     recs = core.run_driver('session', tier=chk.tier, seed=chk.seed, args=dict(what='calls'), timeout=3000)
     chk.validate('public-calls', 'Trace_Session', 'Trace_Session.cfg', recs, driver='session', jobs=8)
     goods = [r for r in recs if r['exc'] == '' and r['nargs'] >= 1]
-    good = goods[0]
+    good = goods[0] if goods else None
 
     def corrupt(r):
         r['args_same'] = False
